@@ -1,24 +1,47 @@
 """C14 -- a reused Interpreter behaves like a fresh one.
 
-spec/Reuse.tla (state groups vars / per-run / rand; Run = transcription of the 16-mode AWK program in
+spec/Reuse.tla (state groups vars / per-run / rand; Run = transcription of the 24-mode AWK program in
 harness/c14/program.go; ExecSpec = the statement, ExecCode(Clears) = newexecute.go), MC_Reuse (ExecCode refines
 ExecSpec; fresh-after-reset; only vars carry over -- to a fixpoint), Gen_Reuse (all histories of <= MaxRuns runs with
-reset variants, exported with the predicted output), Trace_Reuse (random longer histories recorded from one real
-Interpreter, every run validated by TLC).
+reset variants, exported with the predicted output; four families: the 16 original kinds; standard input through
+every reading path with an input of its own per run; exit N outside END followed by a failing END; Execute /
+ExecuteContext with contexts that are done after the call returned), Trace_Reuse (random longer histories recorded
+from one real Interpreter, every run validated by TLC; rejected histories are re-run through the replayer).
 """
-import copy
+import copy, json, os
 from vlib import MachineryError
 
 ALL_KINDS = ('{"plain", "setglob", "setfs", "csvhdr", "setmodes", "openout", "exit3", "errfunc", "errforin", "cancel", '
+             '"rand", "srand5", "midfile", "match", "p_io", "p_func", "gl_plain", "gl_dash", "gl_dashvar", '
+             '"exit_enderr", "exitbegin", "exit_endcancel", "sys", "pipe"}')
+OLD_KINDS = ('{"plain", "setglob", "setfs", "csvhdr", "setmodes", "openout", "exit3", "errfunc", "errforin", "cancel", '
              '"rand", "srand5", "midfile", "match", "p_io", "p_func"}')
-ALL_CFGS = '{"c0", "c1", "c2"}'
-CORE = ["scanner", "ins", "outs", "sp", "record", "match", "status", "hdr", "argc"]
+ALL_CFGS = '{"c0", "c1", "c2", "c3", "c4"}'
+CORE = ["scanner", "ins", "outs", "sp", "record", "match", "status", "hdr", "argc", "dash", "ctx"]
+# The quick model run: 16 kinds that between them touch every component of the per-run state, and the three
+# configurations that differ in what they set (c3 / c4 differ from c0 only in how the call is made; c1 already is an
+# ExecuteContext whose context is done after the call).
+MC_QUICK = {'MaxDraws': 1, 'McTags': '{1}', 'McCfgs': '{"c0", "c1", "c2"}',
+            'McKinds': '{"plain", "setglob", "setfs", "csvhdr", "openout", "exit3", "errfunc", "cancel", "midfile", "p_io", '
+                       '"p_func", "gl_dash", "gl_dashvar", "exit_enderr", "exit_endcancel", "sys"}',
+            'JudgeKinds': '{"plain", "p_io", "gl_dash"}', 'JudgeCfgs': '{"c0", "c1"}'}
+MC_THOROUGH = {'MaxDraws': 1, 'McTags': '{1}', 'McCfgs': '{"c0", "c1", "c2", "c3"}', 'McKinds': ALL_KINDS,
+               'JudgeKinds': '{"plain", "p_io", "p_func", "csvhdr", "midfile", "gl_dash", "gl_dashvar", "sys"}',
+               'JudgeCfgs': '{"c0", "c1", "c2"}'}
+# a second thorough model run: the new kinds only, every configuration, two different inputs per configuration
+MC_THOROUGH_NEW = {'MaxDraws': 2, 'McTags': '{1, 2}', 'McCfgs': ALL_CFGS,
+                   'McKinds': '{"plain", "p_func", "errfunc", "cancel", "gl_plain", "gl_dash", "gl_dashvar", "exit_enderr", '
+                              '"exitbegin", "exit_endcancel", "sys", "pipe"}',
+                   'JudgeKinds': '{"plain", "p_func", "gl_dash", "gl_dashvar", "sys", "pipe"}', 'JudgeCfgs': ALL_CFGS}
+API = {'c0': 'exec', 'c1': 'ctx', 'c2': 'exec', 'c3': 'ctxdl', 'c4': 'ctxbg'}
+COMMAND_KINDS = ('sys', 'pipe')
 
 GROUPS = {}
 for g, ks in {'globals': 'g ak', 'specials': 'FS RS OFS ORS CONVFMT OFMT SUBSEP cv ss',
               'record': 'NR FNR NF line FILENAME rec endNR', 'match': 'RSTART RLENGTH rstart', 'inputmode': 'INPUTMODE',
               'outputmode': 'OUTPUTMODE', 'rand': 'rand', 'outstreams': 'wclose wline',
-              'instreams': 'midret mid rret rline', 'header': 'x', 'frames': 'fact forin boom loop sum'}.items():
+              'instreams': 'midret mid rret rline', 'header': 'x', 'frames': 'fact forin boom loop sum',
+              'stdin': 'gl gd gvr gv', 'command': 'sysrc pipe'}.items():
     for k in ks.split():
         GROUPS[k] = g
 GROUPS[''] = 'outputmode'
@@ -46,15 +69,16 @@ def corrupt_event(ev, rnd):
     if ev.get('op') != 'run':
         return None
     e = copy.deepcopy(ev)
-    if rnd.random() < 0.3:
+    if rnd.random() < 0.3 or len(e['out']) < 3:
         e['status'] += 1
     else:
         e['out'][rnd.randrange(3)]['v'].append(122)
     return e
 
 
-def trace_failure(rej):
-    """Signature + Gen_Reuse-format case for a recorded history that Trace_Reuse rejected."""
+def trace_case(rej):
+    """Gen_Reuse-format case for a recorded history that Trace_Reuse rejected: the history up to the rejected run,
+    with the specification's prediction for that run."""
     runs, vr = [], set()
     for ev in rej['trace'][:rej['pos'] + 1]:
         if ev.get('op') == 'resetvars':
@@ -63,34 +87,48 @@ def trace_failure(rej):
             vr.add('rand')
         elif ev.get('op') == 'run':
             v = 'both' if len(vr) == 2 else (vr.pop() if vr else 'none')
-            runs.append(dict(vr=v, kind=ev['kind'], cfg=ev['cfg'], status=ev['status'], err=ev['err']))
+            runs.append(dict(vr=v, kind=ev['kind'], cfg=ev['cfg'], tag=ev['tag'], status=ev['status'], err=ev['err']))
             vr = set()
-    ev = rej['trace'][rej['pos']]
     exp = rej['info']['expected']
     runs[-1]['status'], runs[-1]['err'] = exp['status'], exp['err']
-    case = dict(fam='reuse', runs=runs, out=exp['out'])
-    cls = 'after-ResetVars' if runs[-1]['vr'] in ('vars', 'both') else 'no-ResetVars'
-    eo, go = exp['out'], ev['out']
-    grp = None
-    for i in range(max(len(eo), len(go))):
-        if i >= len(eo):
-            grp = GROUPS.get(go[i]['k'], 'other')
-        elif i >= len(go) or eo[i]['k'] != go[i]['k']:
-            grp = GROUPS.get(go[i]['k'] if i < len(go) else eo[i]['k'], 'other')
-        elif (eo[i]['cmp'] == 'eq' and eo[i]['v'] != go[i]['v']) or (eo[i]['cmp'] == 'fresh' and not ev['randfresh']):
-            grp = GROUPS.get(eo[i]['k'], 'other')
-        if grp:
-            break
-    if grp:
-        d = 'wrong-value' if grp in ('globals', 'specials', 'rand') else 'carried-over'
-        sig = f'C14/{grp}/{d}/{cls}'
-    elif ev['err'] != exp['err']:
-        sig = f"C14/error/{ev['err']}-instead-of-{exp['err']}/{cls}"
-    else:
-        sig = f'C14/status/carried-over/{cls}'
-    if len(runs) == 1:
-        sig = sig.replace('C14/', 'C14-FRESH-MODEL/', 1)
-    return sig, case
+    return dict(fam='trace', runs=runs, out=exp['out'])
+
+
+def judge_rejects(ctx, rejects):
+    """A history the specification rejects is re-run through the replayer (the same comparison, the same
+    signatures as the spec -> code direction): only what is reproduced there is a verdict."""
+    if not rejects:
+        return
+    cases = []
+    for r in rejects:
+        ev = r['trace'][r['pos']]
+        if 'expected' not in (r.get('info') or {}):
+            raise MachineryError(f"trace-reuse: the recorder wrote an event the specification does not know at line {r['line']}: "
+                                 f"kind={ev.get('kind')} cfg={ev.get('cfg')} tag={ev.get('tag')}")
+        cases.append(trace_case(r))
+    with open(ctx.path('trace_cases.ndjson'), 'w') as f:
+        for c in cases:
+            f.write(json.dumps(c, separators=(',', ':')) + '\n')
+    out = ctx.path('summary_trace-rejects.json')
+    ctx.harness(['C14', 'replay', '-in', ctx.path('trace_cases.ndjson'), '-out', out, '-maxfail', '1000'])
+    s = json.load(open(out))
+    if s['sig_counts'].get('HARNESS-PANIC'):
+        raise MachineryError('trace-reuse: harness panicked re-running a rejected history')
+    for f in s['failures']:
+        f['what'] = 'recorded history rejected by Trace_Reuse, reproduced: ' + str(f.get('what'))
+        ctx.failures.append(f)
+    for k, v in s['sig_counts'].items():
+        ctx.sig_counts[k] = ctx.sig_counts.get(k, 0) + v
+    nrep = sum(s['sig_counts'].values())
+    ctx.log(f'trace-reuse: {len(rejects)} rejected histories re-run through the replayer: {nrep} reproduced')
+    if nrep < len(cases):
+        # a deterministic history that is rejected once and accepted the next time: only a child process (fork failure
+        # under load) excuses that
+        loose = [c for c in cases if not any(r['kind'] in COMMAND_KINDS for r in c['runs'])]
+        ctx.notes.append(f'{len(cases) - nrep} rejected recorded histories were not reproduced by the replayer')
+        if nrep == 0 and loose:
+            raise MachineryError(f'trace-reuse: {len(cases)} recorded histories were rejected by the specification but none is '
+                                 f'reproduced by the replayer (first: {json.dumps(loose[0])[:600]})')
 
 
 def gate_fresh_model(ctx):
@@ -105,71 +143,97 @@ def gate_fresh_model(ctx):
 
 def run(ctx):
     q = ctx.quick
-    ctx.rule = ('a case is one history of Execute/ExecuteContext calls on ONE interp.New(program) -- each run one of 16 '
+    ctx.rule = ('a case is one history of Execute/ExecuteContext calls on ONE interp.New(program) -- each run one of 24 '
                 'kinds (plain, sets globals/array, sets FS RS OFS ORS CONVFMT OFMT SUBSEP, CSV header, sets INPUTMODE/'
                 'OUTPUTMODE, leaves an output stream open, exit 3, error in a function in a loop, error in for-in, '
-                'cancelled mid-function, rand(), srand(5), getline<file to mid-file, match(), I/O probe, function probe) '
-                'x 3 configurations (zero Config / Vars FS + OutputMode + file operand + ExecuteContext / InputMode csv '
-                'header), with ResetVars/ResetRand variants -- exported by TLC from Gen_Reuse with the predicted output, '
+                'cancelled mid-function, rand(), srand(5), getline<file to mid-file, match(), I/O probe, function probe; '
+                'reads all standard input with plain getline / with getline < "-", reads one record with getline var < "-" '
+                'leaving the scanner mid-stream; exit 4 in a rule or exit 6 in BEGIN followed by a run-time error in END, '
+                'exit 5 followed by a cancellation in END; system("exit 3"), "echo hi" | getline) x 5 configurations (zero '
+                'Config + Execute / Vars FS + OutputMode + file operand + ExecuteContext whose context is cancelled when the '
+                'call has returned / InputMode csv header / ExecuteContext whose context expires when the call has returned '
+                '/ ExecuteContext(Background)), every run with a standard input of its own, with ResetVars/ResetRand '
+                'variants -- exported by TLC from Gen_Reuse (families reuse, stdin, exit, ctx) with the predicted output, '
                 'status and error class, or one 5-12 operation random history recorded from the real interpreter; '
                 'distinct by content; non-trivial when the judged run executes on an interpreter that already ran')
     ctx.assumptions += [
-        'one AWK program with 16 modes (an Interpreter is tied to one program); every mode prints a fingerprint of all '
+        'one AWK program with 24 modes (an Interpreter is tied to one program); every mode prints a fingerprint of all '
         'state visible in BEGIN (globals, array element, FS..SUBSEP, CONVFMT/OFMT effects, NR FNR NF $0 FILENAME RSTART '
         'RLENGTH INPUTMODE OUTPUTMODE, rand(), a print line) before doing what its kind says',
         'rand(): the statement fixes it only after ResetRand (equal to the first rand() of a new interpreter); when the '
         'generator was used and not reset the value is not judged',
         'the arrays FIELDS, ARGV and ENVIRON (program-visible arrays that Execute fills) are not observed: the statement '
         'lets arrays carry over without ResetVars and does not say whether these are "header names"/"configuration"',
-        'error texts are not compared, only the class none / error / context.Canceled; text written to Config.Error is '
-        'not compared',
+        'error texts are not compared, only the class none / error / context.Canceled / context.DeadlineExceeded; text '
+        'written to Config.Error is not compared',
         'a disagreement in the first run of a history (new interpreter) is reported as a machinery error, not as a verdict',
+        'standard input: every run is handed its own reader (its last record names the run); a run reads it through one '
+        'path, or through a second one only after the first reached the end -- what a second scanner sees of input that '
+        'another scanner has buffered but not handed out is not modelled and not generated',
+        'contexts: a run is governed by the context of its own call only; a context "cancelled after the call" is '
+        'context.WithTimeout(1h) + cancel() on return, one "expired after the call" is a Context implementation whose '
+        'Done channel the harness closes on return and whose Err() is then DeadlineExceeded; runs that cancel themselves '
+        'are always given a context of their own',
+        'commands (system("exit 3"), "echo hi" | getline) are started in END, after the main loop has consumed the '
+        'standard input a child would inherit; a history that starts commands counts as failing only if it fails three '
+        'times in a row (a fork can fail under load), and a rejected recorded history only if the replayer reproduces it',
+        'exit N followed by a failing END: the status the failing call itself returns is 0 with the error (what a new '
+        'interpreter returns); N must not show in any later run',
     ]
     ctx.build()
     # 1. model: the code-level reset discipline refines the statement (fixpoint over reachable states)
-    mc = ctx.cfg('MC_Reuse', constants={'MaxDraws': 1} if q else {'MaxDraws': 2, 'JudgeKinds': '{"plain", "p_io", "p_func", "csvhdr", "midfile", "exit3", "openout"}'})
-    ctx.tlc('MC_Reuse', mc, timeout=1500, heap='4g')
-    if not q:
-        # The model must be able to fail, and must agree with the code on which clears of resetCore matter:
-        # without clearing the header names (the code as built: finding F11), the exit status or the output
-        # streams TLC violates an invariant; clearing the stack pointer is redundant (nested calls restore it).
-        verdicts = {}
-        for f in ('hdr', 'status', 'outs', 'sp'):
-            c = ctx.cfg('MC_Reuse', name=f'MC_Reuse_no_{f}', constants={'Clears': tla_set([x for x in CORE if x != f]), 'MaxDraws': 1})
-            r = ctx.tlc('MC_Reuse', c, timeout=900, heap='4g', allow_fail=True, label=f'MC_Reuse without clearing {f}')
-            if r['rc'] == 124:
-                raise MachineryError('TLC timed out on the load-bearing analysis')
-            verdicts[f] = not r['ok']
-        ctx.notes.append('resetCore clears in the model: without "hdr" (the code as built, finding F11), "status" or "outs" TLC '
-                         'violates an invariant; without "sp" it does not (redundant): ' + str(verdicts))
-        if not (verdicts['hdr'] and verdicts['status'] and verdicts['outs']) or verdicts['sp']:
-            raise MachineryError('model lost its teeth (or gained false ones): ' + str(verdicts))
+    if os.environ.get('VERIF_SKIP_MODEL'):      # development aid for runs against changed trees: the model does not depend on the code
+        ctx.notes.append('model run skipped (VERIF_SKIP_MODEL)')
+    else:
+        mc = ctx.cfg('MC_Reuse', constants=MC_QUICK if q else MC_THOROUGH)
+        ctx.tlc('MC_Reuse', mc, timeout=2400, heap='4g')
+        if not q:
+            mc2 = ctx.cfg('MC_Reuse', name='MC_Reuse_new', constants=MC_THOROUGH_NEW)
+            ctx.tlc('MC_Reuse', mc2, timeout=2400, heap='4g')
+            # The model must be able to fail, and must agree with the code on which clears of resetCore matter:
+            # without clearing the header names (finding F11, since fixed), the exit status, the output streams, the
+            # scanners map (getline < "-") or the context of an earlier call TLC violates an invariant; clearing the
+            # stack pointer is redundant (nested calls restore it).
+            verdicts = {}
+            for f in ('hdr', 'status', 'outs', 'dash', 'ctx', 'sp'):
+                c = ctx.cfg('MC_Reuse', name=f'MC_Reuse_no_{f}', constants=dict(MC_QUICK, Clears=tla_set([x for x in CORE if x != f])))
+                r = ctx.tlc('MC_Reuse', c, timeout=900, heap='4g', allow_fail=True, label=f'MC_Reuse without clearing {f}')
+                if r['rc'] == 124:
+                    raise MachineryError('TLC timed out on the load-bearing analysis')
+                verdicts[f] = not r['ok']
+            ctx.notes.append('resetCore clears in the model: without "hdr", "status", "outs", "dash" (the scanners map) or "ctx" '
+                             '(switching context checking off) TLC violates an invariant; without "sp" it does not (redundant): ' + str(verdicts))
+            if not all(verdicts[f] for f in ('hdr', 'status', 'outs', 'dash', 'ctx')) or verdicts['sp']:
+                raise MachineryError('model lost its teeth (or gained false ones): ' + str(verdicts))
     # 2. spec -> code
     if q:
         gen = ctx.cfg('Gen_Reuse', constants={'MaxRuns': 3})
         ctx.tlc('Gen_Reuse', gen, capture='cases.ndjson', timeout=900, heap='4g')
     else:
-        gen = ctx.cfg('Gen_Reuse', constants={'MaxRuns': 3, 'LastCfgs': ALL_CFGS,
+        gen = ctx.cfg('Gen_Reuse', constants={'MaxRuns': 3, 'LastCfgs': '{"c0", "c1", "c2"}', 'Deep': 'TRUE',
                                                'LastKinds': '{"plain", "p_io", "p_func", "csvhdr", "midfile", "setglob"}'})
-        ctx.tlc('Gen_Reuse', gen, capture='cases.ndjson', timeout=2400, heap='8g')
-        sim = ctx.cfg('Gen_Reuse', name='Gen_Reuse_sim', constants={'MaxRuns': 6, 'LastKinds': ALL_KINDS, 'LastCfgs': ALL_CFGS,
-                                                                     'ResetsAnywhere': 'TRUE'})
+        ctx.tlc('Gen_Reuse', gen, capture='cases.ndjson', timeout=3000, heap='8g')
+        sim = ctx.cfg('Gen_Reuse', name='Gen_Reuse_sim', constants={'Fams': '{"reuse"}', 'MaxRuns': 6, 'RunKinds': ALL_KINDS, 'RunCfgs': ALL_CFGS,
+                                                                     'LastKinds': ALL_KINDS, 'LastCfgs': ALL_CFGS, 'ResetsAnywhere': 'TRUE'})
         # in simulation mode TLC evaluates (and so exports) every successor of every state on a walk: one walk of
-        # 6 runs yields ~800 histories (each prefix of the walk extended by every possible next run)
-        ctx.tlc('Gen_Reuse', sim, capture='cases.ndjson', simulate=40, depth=7, workers=1, timeout=900)
+        # 6 runs yields ~2000 histories (each prefix of the walk extended by every possible next run)
+        ctx.tlc('Gen_Reuse', sim, capture='cases.ndjson', simulate=20, depth=7, workers=1, timeout=1200)
     ctx.cov['exhaustive'] = True
     ctx.replay('cases.ndjson', label='gen-reuse', min_cases=1000, corrupt=corrupt)
     gate_fresh_model(ctx)
+    fams = {}
+    for line in open(ctx.path('cases.ndjson')):
+        k = json.loads(line)['fam']
+        fams[k] = fams.get(k, 0) + 1
+    ctx.cov['families'] = fams
+    if not all(fams.get(k) for k in ('reuse', 'stdin', 'exit', 'ctx')):
+        raise MachineryError(f'Gen_Reuse exported no case for some family: {fams}')
     # 3. code -> spec
     ntr = 100 if q else 1000
     ctx.harness(['C14', 'record', '-seed', str(ctx.seed), '-n', str(ntr), '-out', ctx.path('trace.ndjson')])
     rejects = ctx.validate_traces('Trace_Reuse', 'Trace_Reuse', 'trace.ndjson', label='trace-reuse', timeout=1500,
                                   corrupt_event=corrupt_event, selftest=False)
-    for r in rejects:
-        sig, case = trace_failure(r)
-        ev = r['trace'][r['pos']]
-        ctx.add_failure(sig, f"recorded history rejected by Trace_Reuse at event {r['line']} (run mode {ev['kind']}, config {ev['cfg']})",
-                        case=case, expected=r['info'].get('expected'), observed=dict(status=ev['status'], err=ev['err'], out=ev['out']))
+    judge_rejects(ctx, rejects)
     gate_fresh_model(ctx)
     trace_selftest(ctx)
 
